@@ -125,6 +125,14 @@ func dateLayoutLanguages(e *Env, rule string, extra ...string) *dateLayout {
 		return 0, false, false
 	}
 	keyOf := func(a, b pred.Val) (string, bool) {
+		// a length pre-filter (`l < 8`, `l > 15`): the length of the input against a constant is an atom with three orders
+		if a.String() == "len(input)" {
+			if c, ok := b.(pred.Const); ok && c.V != nil && c.V.Kind() == constant.Int {
+				if k, exact := constant.Int64Val(c.V); exact && k > 0 && k < 64 {
+					return fmt.Sprintf("len?%d", k), true
+				}
+			}
+		}
 		if el, ok := a.(pred.Elem); ok && el.Base.String() == "input" {
 			if af, ok := el.Index.(pred.Affine); ok && af.X.String() == "len(input)" && af.C < 0 {
 				if c, ok := b.(pred.Const); ok && c.V != nil {
@@ -158,7 +166,12 @@ func dateLayoutLanguages(e *Env, rule string, extra ...string) *dateLayout {
 		}
 		return "", false
 	}
-	domain := func(key string) []int { return []int{0, 1} } // equal / different
+	domain := func(key string) []int {
+		if strings.HasPrefix(key, "len?") {
+			return []int{-1, 0, 1}
+		}
+		return []int{0, 1} // equal / different
+	}
 	sums := map[string]pred.Summary{
 		"go.lstv.dev/util/date.New": func(ev *pred.Evaluator, args []pred.Val) (pred.Val, error) {
 			return pred.Term{Fn: "New", Args: args}, nil
@@ -179,9 +192,12 @@ func dateLayoutLanguages(e *Env, rule string, extra ...string) *dateLayout {
 	// atoms → languages
 	offsets := map[string]bool{}
 	ruleKey := ""
+	lenKeys := map[string]bool{}
 	for _, l := range leaves {
 		for k := range l.Assign {
-			if strings.HasPrefix(k, "byte@") {
+			if strings.HasPrefix(k, "len?") {
+				lenKeys[k] = true
+			} else if strings.HasPrefix(k, "byte@") {
 				offsets[k] = true
 			} else {
 				if ruleKey != "" && ruleKey != k {
@@ -216,6 +232,18 @@ func dateLayoutLanguages(e *Env, rule string, extra ...string) *dateLayout {
 		}
 		pats = append(pats, fmt.Sprintf(`^%s*\x{%02x}%s{%d}$`, any, c, any, off-1))
 	}
+	var lenKeyList []string
+	for k := range lenKeys {
+		lenKeyList = append(lenKeyList, k)
+	}
+	sort.Strings(lenKeyList)
+	lenBase := len(pats)
+	for _, k := range lenKeyList {
+		var n int
+		fmt.Sscanf(k, "len?%d", &n)
+		// the words of the pattern are ASCII, so byte length and rune length agree on everything intersected with it
+		pats = append(pats, fmt.Sprintf(`^%s{0,%d}$`, any, n-1), fmt.Sprintf(`^%s{%d}$`, any, n), fmt.Sprintf(`^%s{%d,}$`, any, n+1))
+	}
 	rExt, _, _, _ := realDateLanguage("-")
 	rBasic, leap, nonleap, years := realDateLanguage("")
 	base := len(pats)
@@ -229,6 +257,10 @@ func dateLayoutLanguages(e *Env, rule string, extra ...string) *dateLayout {
 	atomD := map[string]*lang.D{}
 	for i, k := range offKeys {
 		atomD[k] = ds[1+i]
+	}
+	lenD := map[string][3]*lang.D{}
+	for i, k := range lenKeyList {
+		lenD[k] = [3]*lang.D{ds[lenBase+3*i], ds[lenBase+3*i+1], ds[lenBase+3*i+2]}
 	}
 	out := &dateLayout{sp: sp, pattern: ds[0], realExt: ds[base], realBasic: ds[base+1], leaves: len(leaves), extra: ds[base+5:]}
 	out.real = sp.Or(out.realExt, out.realBasic)
@@ -253,6 +285,10 @@ func dateLayoutLanguages(e *Env, rule string, extra ...string) *dateLayout {
 		}
 		L := ds[0]
 		for k, v := range l.Assign {
+			if strings.HasPrefix(k, "len?") {
+				L = sp.And(L, lenD[k][v+1])
+				continue
+			}
 			if !strings.HasPrefix(k, "byte@") {
 				continue
 			}
